@@ -219,8 +219,8 @@ Proof. unfold sp_drain. cbv zeta. intros H. crush H; cbn; split; lia. Qed.
 Lemma sp_splice_nx c st nx v sb eb pat f rk n wa cl r :
   sp_splice c st nx v sb eb pat f rk n wa cl = Some r -> nx <= s_nx r /\ s_out r < 100.
 Proof.
-  intros H. destruct (sp_splice_inv _ _ _ _ _ _ _ _ _ _ _ _ _ H) as (_ & _ & _ & H'). clear H.
-  unfold sp_splice in H'. rewrite N.eqb_refl in H'. cbn [negb] in H'. cbv zeta in H'.
+  intros H. destruct (sp_splice_inv _ _ _ _ _ _ _ _ _ _ _ _ _ H) as (_ & _ & H'). clear H.
+  unfold sp_splice in H'. cbv zeta in H'.
   crush H'; cbn; split; lia.
 Qed.
 Lemma sp_look_nx c st nx o r : sp_look c st nx o = Some r -> nx <= s_nx r /\ s_out r < 100.
@@ -423,7 +423,7 @@ Definition admissibleb (c : cfg) (w : world) (o : op) : bool :=
       end
   | OShrinkToFit v | OShrinkTo v _ =>
       match get_vec v w with Some vv => c_sz c * vcap vv <=? alloc_limit | None => true end
-  | OSplice _ v sb eb _ _ _ n _ _ => adm_spliceb c w v sb eb n
+  | OSplice _ v sb eb _ _ _ _ _ cl => adm_spliceb c w v sb eb cl
   | OWithCapacity _ bk n =>
       bk_wfb bk && (n <=? usize_max)
       && match bk with BReloc c0 => c_sz c * N.max n c0 <=? alloc_limit | _ => c_sz c * n <=? alloc_limit end
@@ -579,7 +579,13 @@ Definition ex_ops : list op :=
     ORemove Erased 10 0 (KMut KDown); OPop Erased 10 (KMut (KMut (KPush 9))); OPop Erased 9 (KLazyDown 2 (KMut KForget));
     OPop Erased 8 (KLazyDown 1 (KPush 9));
     (* a lazy clone of a value the caller owns *)
-    OPush Erased 9 (SLazyUser 1); OInsert Erased 9 0 (SLazyUser 3); OInsert Erased 9 9 (SLazyUser 2) ].
+    OPush Erased 9 (SLazyUser 1); OInsert Erased 9 0 (SLazyUser 3); OInsert Erased 9 9 (SLazyUser 2);
+    (* replacement iterators whose announced length is wrong: announces 1, yields 3 (one goes in, two are destroyed);
+       announces 4, yields 1 (the gap is closed); announces 2 on a full fixed backend and yields nothing (refused on
+       the announcement alone) *)
+    OSplice Erased 9 (BIncluded 1) (BExcluded 2) [] FinDrop RWrap 3 None 1;
+    OSplice Typed 9 (BIncluded 0) (BExcluded 1) [(true, KDown)] FinDrop RBox 1 None 4;
+    OSplice Erased 8 (BIncluded 0) (BExcluded 0) [] FinDrop RWrap 0 None 2 ].
 
 Example ex_spec_defined : exists rs, spec_run ex_cfg [] 1 ex_ops = Some rs /\ length rs = length ex_ops.
 Proof. eexists. split; [vm_compute; reflexivity|reflexivity]. Qed.
@@ -608,7 +614,8 @@ Example ex_outcomes :
      (0,0,[]); (0,0,[]); (2,1,[]); (2,1,[]); (2,3,[]);
      (0,0,[]); (0,0,[]); (2,1,[]); (2,1,[]); (2,3,[]);
      (0,0,[45; 46]); (0,0,[44; 47]); (0,0,[49; 50; 48]); (0,0,[52]);
-     (0,0,[]); (0,0,[]); (2,1,[])].
+     (0,0,[]); (0,0,[]); (2,1,[]);
+     (0,0,[1]); (0,0,[1; 1; 56; 0; 56]); (2,3,[])].
 Proof. vm_compute. reflexivity. Qed.
 
 (** ** Corollaries in the vocabulary of the properties *)
